@@ -64,6 +64,9 @@ class C11(core.Property):
         for c in cps:
             for e in ENCS:
                 cases.append({"k": "width", "e": e, "c": c})
+        for c in bounds:
+            for e in ENCS:
+                cases.append({"k": "width", "e": e, "c": c, "es": 1})
         # strings x positions
         alpha = ALPHA_QUICK if chk.quick else ALPHA_FULL
         L = 3 if chk.quick else 5
@@ -80,6 +83,12 @@ class C11(core.Property):
                         for l in range(nl + 2):
                             for k in range(len(text) + 2):
                                 cases.append({"k": "tot", "e": e, "text": text, "l": l, "ch": k})
+                    if n <= (2 if chk.quick else 3):
+                        for l in range(nl + 2):
+                            for ch in range(maxu + 1):
+                                cases.append({"k": "fromt", "e": e, "text": text, "l": l, "ch": ch, "es": 1})
+                            for k in range(len(text) + 2):
+                                cases.append({"k": "tot", "e": e, "text": text, "l": l, "ch": k, "es": 1})
                 cases.append({"k": "lines", "text": text})
         # explicit line lists (as user code may pass), longer random lines, ranges, huge positions
         pool = [0x61, 0x62, 0xE9, 0x20AC, 0x1F60B, 0x10000, 0xFFFF, 0x7F, 0x80]
@@ -91,13 +100,14 @@ class C11(core.Property):
             l = rng.randint(0, nl + 1)
             ch = rng.choice([rng.randint(0, 14), rng.randint(0, 30), 2 ** 31 - 1, 10 ** 6])
             k = rng.choice(["from", "to", "rfrom", "rto", "units"])
+            es = rng.randint(0, 1)
             if k == "units":
-                cases.append({"k": "units", "e": e, "s": lines[0] if lines else []})
+                cases.append({"k": "units", "e": e, "s": lines[0] if lines else [], "es": es})
             elif k in ("from", "to"):
-                cases.append({"k": k, "e": e, "lines": lines, "l": l, "ch": ch})
+                cases.append({"k": k, "e": e, "lines": lines, "l": l, "ch": ch, "es": es})
             else:
                 cases.append({"k": k, "e": e, "lines": lines, "l": l, "ch": ch,
-                              "l2": rng.randint(0, nl + 1), "ch2": rng.randint(0, 20)})
+                              "l2": rng.randint(0, nl + 1), "ch2": rng.randint(0, 20), "es": es})
         # lines that are not LSP-shaped (embedded terminators): model = implementation only
         weird = [0x61, 10, 13, 0x1F60B]
         for _ in range(chk.n(400, 5000)):
@@ -132,6 +142,9 @@ class C11(core.Property):
         kind = {8: types.PositionEncodingKind.Utf8, 16: types.PositionEncodingKind.Utf16,
                 32: types.PositionEncodingKind.Utf32}
         codecs = {e: PositionCodec(encoding=kind[e]) for e in ENCS}
+        # the negotiated encoding may reach the codec as a plain string (general.positionEncodings is
+        # `List[Union[PositionEncodingKind, str]]`): cases with "es": 1 use a codec built from the str
+        scodecs = {e: PositionCodec(encoding=str(kind[e].value)) for e in ENCS}
         tostr = lambda s: "".join(map(chr, s))
         lines_cache = {}
         def doc_lines(text):
@@ -145,8 +158,12 @@ class C11(core.Property):
         for c in cases:
             k = c["k"]
             try:
+                if c.get("es"):
+                    codecs_ = scodecs
+                else:
+                    codecs_ = codecs
                 if k == "width":
-                    ch = chr(c["c"]); cd = codecs[c["e"]]
+                    ch = chr(c["c"]); cd = codecs_[c["e"]]
                     line = [ch + "a" * 8]
                     loopw = sum(1 for u in range(1, 9)
                                 if cd.position_from_client_units(line, types.Position(0, u)).character == 1)
@@ -154,7 +171,7 @@ class C11(core.Property):
                           32: len(ch.encode("utf-32-le")) // 4}[c["e"]]
                     out.append([loopw, cd.client_num_units(ch), tw])
                 elif k == "units":
-                    out.append([codecs[c["e"]].client_num_units(tostr(c["s"]))])
+                    out.append([codecs_[c["e"]].client_num_units(tostr(c["s"]))])
                 elif k == "lines":
                     out.append([[ord(x) for x in l] for l in doc_lines(c["text"])])
                 elif k in ("from", "to", "fromt", "tot"):
@@ -164,14 +181,14 @@ class C11(core.Property):
                         lines = [tostr(l) for l in c["lines"]]
                     before = list(lines)
                     p = types.Position(line=c["l"], character=c["ch"])
-                    cd = codecs[c["e"]]
+                    cd = codecs_[c["e"]]
                     r = (cd.position_from_client_units if k.startswith("from") else cd.position_to_client_units)(lines, p)
                     assert lines == before, "lines argument modified"
                     out.append([r.line, r.character, p.line, p.character])
                 elif k in ("rfrom", "rto"):
                     lines = [tostr(l) for l in c["lines"]]
                     rg = types.Range(start=types.Position(c["l"], c["ch"]), end=types.Position(c["l2"], c["ch2"]))
-                    cd = codecs[c["e"]]
+                    cd = codecs_[c["e"]]
                     r = (cd.range_from_client_units if k == "rfrom" else cd.range_to_client_units)(lines, rg)
                     out.append([r.start.line, r.start.character, r.end.line, r.end.character,
                                 rg.start.line, rg.start.character, rg.end.line, rg.end.character])
@@ -221,7 +238,13 @@ class C11(core.Property):
                 nlines = len(c["lines"]) if "lines" in c else self._nlines(c["text"])
                 klass = "F16p-eof-unit-count" if (k.startswith("from") and c["l"] >= nlines) else "F17-utf8-widths"
             return {"M": M, "S": S, "guard": bool(g), "klass": klass}
-        return {"M": v, "S": None, "guard": True}
+        # range wrappers: the statement's clause (iv): the range argument is unchanged
+        return {"M": v, "S": {"arg": [c["l"], c["ch"], c["l2"], c["ch2"]]}, "guard": True}
+
+    def satisfies(self, c, impl, S):
+        if isinstance(S, dict) and "arg" in S:
+            return isinstance(impl, list) and len(impl) == 8 and impl[4:] == S["arg"]
+        return impl == S
 
     def nontrivial(self, c):
         k = c["k"]
